@@ -2,4 +2,285 @@ import PV.Model.Fold
 import PV.Model.Utf8
 import PV.Lemmas.Utf8
 namespace PV.Lemmas.Fold
+open PV.Fold PV.Utf8 PV.Spec.Utf8 PV.Lemmas.Utf8
+
+/-! ### well-formed byte strings, code point boundaries -/
+
+/-- well-formed UTF-8 (same as `Spec.Utf8.WellFormed`) -/
+def WF (bs : List UInt8) : Prop :=
+  ∃ cs : List Nat, (∀ c ∈ cs, Scalar c) ∧ bs = cs.flatMap encodeCP
+
+theorem decodeAll_iff' (bs : List UInt8) (cs : List Nat) :
+    decodeAll bs = some cs ↔ ((∀ c ∈ cs, Scalar c) ∧ bs = cs.flatMap encodeCP) :=
+  decodeAllFuel_iff bs.length bs cs (Nat.le_refl _)
+
+theorem isUTF8_iff_WF (bs : List UInt8) : isUTF8 bs = true ↔ WF bs := by
+  unfold isUTF8 WF
+  rw [Option.isSome_iff_exists]
+  exact exists_congr fun cs => decodeAll_iff' bs cs
+
+theorem WF_nil : WF [] := ⟨[], by simp, rfl⟩
+
+theorem WF_append {a b : List UInt8} : WF a → WF b → WF (a ++ b) := by
+  rintro ⟨ca, ha, rfl⟩ ⟨cb, hb, rfl⟩
+  refine ⟨ca ++ cb, ?_, by rw [List.flatMap_append]⟩
+  intro c hc
+  rcases List.mem_append.mp hc with h | h
+  · exact ha c h
+  · exact hb c h
+
+theorem WF_encodeCP {c : Nat} (hc : Scalar c) : WF (encodeCP c) :=
+  ⟨[c], by simpa using hc, by simp⟩
+
+theorem decodeAll_encodeCP {c : Nat} (hc : Scalar c) : decodeAll (encodeCP c) = some [c] := by
+  rw [decodeAll_iff']
+  exact ⟨by simpa using hc, by simp⟩
+
+theorem decode_mono {x y : List UInt8} {c n : Nat} (h : decode x = some (c, n)) (hp : x <+: y) :
+    decode y = some (c, n) := by
+  rw [decode_eq_some_iff] at h ⊢
+  exact ⟨h.1, h.2.1, h.2.2.trans hp⟩
+
+/-- the first code point of a non-empty well-formed string -/
+theorem WF_decode {b : List UInt8} (hb : WF b) (hne : b ≠ []) :
+    ∃ c n, decode b = some (c, n) ∧ Scalar c ∧ 1 ≤ n ∧ n = (encodeCP c).length ∧
+      b.take n = encodeCP c ∧ WF (b.drop n) := by
+  obtain ⟨cs, hs, rfl⟩ := hb
+  cases cs with
+  | nil => simp at hne
+  | cons c cs =>
+    refine ⟨c, (encodeCP c).length, ?_, hs c (List.mem_cons_self ..), encodeCP_length_pos c, rfl, ?_, ?_⟩
+    · rw [decode_eq_some_iff]
+      exact ⟨hs c (List.mem_cons_self ..), rfl, by rw [List.flatMap_cons]; exact List.prefix_append _ _⟩
+    · rw [List.flatMap_cons, List.take_left' rfl]
+    · rw [List.flatMap_cons, List.drop_left' rfl]
+      exact ⟨cs, fun x hx => hs x (List.mem_cons_of_mem _ hx), rfl⟩
+
+/-- UTF-8 is a prefix code: a well-formed prefix of a well-formed string leaves a well-formed rest -/
+theorem WF_cancel_aux : ∀ (cs : List Nat) (y : List UInt8), (∀ c ∈ cs, Scalar c) →
+    WF (cs.flatMap encodeCP ++ y) → WF y
+  | [], y, _, h => by simpa using h
+  | c :: cs, y, hs, h => by
+    have hc : Scalar c := hs c (List.mem_cons_self ..)
+    have hlen := encodeCP_length_pos c
+    have hne : (c :: cs).flatMap encodeCP ++ y ≠ [] := by
+      intro h0
+      have := congrArg List.length h0
+      simp only [List.flatMap_cons, List.length_append, List.length_nil] at this
+      omega
+    obtain ⟨c', n, hdec, _, _, hn, htake, hdrop⟩ := WF_decode h hne
+    have hdec' : decode ((c :: cs).flatMap encodeCP ++ y) = some (c, (encodeCP c).length) := by
+      rw [decode_eq_some_iff]
+      refine ⟨hc, rfl, ?_⟩
+      rw [List.flatMap_cons, List.append_assoc]
+      exact List.prefix_append _ _
+    rw [hdec] at hdec'
+    simp only [Option.some.injEq, Prod.mk.injEq] at hdec'
+    obtain ⟨rfl, rfl⟩ := hdec'
+    rw [List.flatMap_cons, List.append_assoc, List.drop_left' rfl] at hdrop
+    exact WF_cancel_aux cs y (fun x hx => hs x (List.mem_cons_of_mem _ hx)) hdrop
+
+theorem WF_cancel_left {x y : List UInt8} (hx : WF x) (hxy : WF (x ++ y)) : WF y := by
+  obtain ⟨cs, hs, rfl⟩ := hx
+  exact WF_cancel_aux cs y hs hxy
+
+/-- `p` is a code point boundary of `line` -/
+def Bd (line : List UInt8) (p : Nat) : Prop := p ≤ line.length ∧ WF (line.take p)
+
+theorem Bd_zero (line : List UInt8) : Bd line 0 := ⟨Nat.zero_le _, by simpa using WF_nil⟩
+
+theorem Bd_length {line : List UInt8} (hv : WF line) : Bd line line.length :=
+  ⟨Nat.le_refl _, by simpa using hv⟩
+
+theorem Bd_drop {line : List UInt8} (hv : WF line) {p : Nat} (hp : Bd line p) : WF (line.drop p) := by
+  apply WF_cancel_left hp.2
+  rw [List.take_append_drop]; exact hv
+
+theorem slice_length (line : List UInt8) (a b : Nat) (hb : b ≤ line.length) :
+    (slice line a b).length = b - a := by
+  unfold slice
+  rw [List.length_drop, List.length_take]; omega
+
+theorem slice_self (line : List UInt8) (a : Nat) : slice line a a = [] := by
+  unfold slice; simp
+
+theorem slice_append (line : List UInt8) {a b c : Nat} (hab : a ≤ b) (hbc : b ≤ c)
+    (hc : c ≤ line.length) :
+    slice line a c = slice line a b ++ slice line b c := by
+  unfold slice
+  have h1 : List.take c line = List.take b line ++ List.drop b (List.take c line) := by
+    have : List.take b line = List.take b (List.take c line) := by
+      rw [List.take_take, Nat.min_eq_left hbc]
+    rw [this, List.take_append_drop]
+  conv => lhs; rw [h1]
+  rw [List.drop_append_of_le_length (by rw [List.length_take]; omega)]
+
+theorem take_append_slice (line : List UInt8) {a b : Nat} (hab : a ≤ b) :
+    line.take a ++ slice line a b = line.take b := by
+  unfold slice
+  have : List.take a line = List.take a (List.take b line) := by
+    rw [List.take_take, Nat.min_eq_left hab]
+  rw [this, List.take_append_drop]
+
+theorem slice_eq_take_drop (line : List UInt8) (a b : Nat) :
+    slice line a b = (line.drop a).take (b - a) := by
+  unfold slice; rw [List.drop_take]
+
+theorem Bd_slice {line : List UInt8} {a b : Nat} (ha : Bd line a) (hb : Bd line b) (hab : a ≤ b) :
+    WF (slice line a b) := by
+  apply WF_cancel_left ha.2
+  rw [take_append_slice line hab]; exact hb.2
+
+/-- decoding at a boundary before the end succeeds and leads to the next boundary -/
+theorem Bd_step {line : List UInt8} (hv : WF line) {p : Nat} (hp : Bd line p) (hlt : p < line.length) :
+    ∃ c n, decode (line.drop p) = some (c, n) ∧ Scalar c ∧ 1 ≤ n ∧ p + n ≤ line.length ∧
+      Bd line (p + n) ∧ slice line p (p + n) = encodeCP c := by
+  have hne : line.drop p ≠ [] := by
+    intro h0
+    have := congrArg List.length h0
+    rw [List.length_drop] at this; simp at this; omega
+  obtain ⟨c, n, hdec, hc, h1, hn, htake, hdrop⟩ := WF_decode (Bd_drop hv hp) hne
+  have hle : p + n ≤ line.length := by
+    have := congrArg List.length htake
+    rw [List.length_take, List.length_drop, ← hn] at this
+    omega
+  refine ⟨c, n, hdec, hc, h1, hle, ⟨hle, ?_⟩, ?_⟩
+  · rw [List.take_add, htake]
+    exact WF_append hp.2 (WF_encodeCP hc)
+  · rw [slice_eq_take_drop, Nat.add_sub_cancel_left, htake]
+
+/-- boundaries do not fall inside a code point -/
+theorem Bd_nest {line : List UInt8} {a b c n : Nat} (ha : Bd line a) (hb : Bd line b)
+    (hab : a < b) (hdec : decode (line.drop a) = some (c, n)) : a + n ≤ b := by
+  have hwf := Bd_slice ha hb (Nat.le_of_lt hab)
+  have hlen := slice_length line a b hb.1
+  have hne : slice line a b ≠ [] := by
+    intro h0; rw [h0] at hlen; simp at hlen; omega
+  obtain ⟨c', n', hdec', _, _, hn', htake, _⟩ := WF_decode hwf hne
+  have hpre : slice line a b <+: line.drop a := by
+    rw [slice_eq_take_drop]; exact List.take_prefix _ _
+  have := decode_mono hdec' hpre
+  rw [hdec] at this
+  simp only [Option.some.injEq, Prod.mk.injEq] at this
+  obtain ⟨rfl, rfl⟩ := this
+  have := congrArg List.length htake
+  rw [List.length_take, hlen, ← hn'] at this
+  omega
+
+/-! ### delimiter runs and `peek` -/
+
+/-- a concatenation of encoded delimiter code points -/
+def DelimRun (o : Opts) (d : List UInt8) : Prop :=
+  ∃ cs : List Nat, (∀ c ∈ cs, Scalar c ∧ c ∈ o.delims) ∧ d = cs.flatMap encodeCP
+
+theorem DelimRun_nil (o : Opts) : DelimRun o [] := ⟨[], by simp, rfl⟩
+
+theorem DelimRun_cons {o : Opts} {c : Nat} {d : List UInt8} (hs : Scalar c) (hc : c ∈ o.delims)
+    (hd : DelimRun o d) : DelimRun o (encodeCP c ++ d) := by
+  obtain ⟨cs, h, rfl⟩ := hd
+  refine ⟨c :: cs, ?_, by rw [List.flatMap_cons]⟩
+  intro x hx
+  rcases List.mem_cons.mp hx with rfl | hx
+  · exact ⟨hs, hc⟩
+  · exact h x hx
+
+theorem DelimRun_WF {o : Opts} {d : List UInt8} (hd : DelimRun o d) : WF d := by
+  obtain ⟨cs, h, rfl⟩ := hd
+  exact ⟨cs, fun c hc => (h c hc).1, rfl⟩
+
+theorem DelimRun_decodeAll {o : Opts} {d : List UInt8} (hd : DelimRun o d) :
+    ∃ cs, decodeAll d = some cs ∧ ∀ c ∈ cs, c ∈ o.delims := by
+  obtain ⟨cs, h, rfl⟩ := hd
+  exact ⟨cs, (decodeAll_iff' _ _).mpr ⟨fun c hc => (h c hc).1, rfl⟩, fun c hc => (h c hc).2⟩
+
+theorem findDelimiter_mem {ds : List Nat} {c : Nat} (h : (findDelimiter ds c).isNone = false) :
+    c ∈ ds := by
+  unfold findDelimiter at h
+  cases hf : ds.findIdx? (· == c) with
+  | none => rw [hf] at h; simp at h
+  | some i =>
+    apply Classical.byContradiction
+    intro hc
+    have : ds.findIdx? (· == c) = none := by
+      rw [List.findIdx?_eq_none_iff]
+      intro x hx
+      apply Bool.eq_false_iff.mpr
+      intro hxc
+      exact hc ((beq_iff_eq.mp hxc) ▸ hx)
+    rw [this] at hf; cases hf
+
+/-- the code point at boundary `p` is not a delimiter -/
+def NonDelimAt (line : List UInt8) (o : Opts) (p : Nat) : Prop :=
+  ∃ c n, decode (line.drop p) = some (c, n) ∧ (findDelimiter o.delims c).isNone = true
+
+/-- why `peek` stopped at `pce` -/
+def StopReason (line : List UInt8) (o : Opts) (last pce : Nat) : Prop :=
+  pce ≥ line.length ∨ (o.keep = true ∧ pce - last ≥ o.width) ∨
+    ∃ c n, decode (line.drop pce) = some (c, n) ∧
+      ((o.keep = true ∧ pce + n - last > o.width) ∨ (findDelimiter o.delims c).isNone = true)
+
+theorem peek_spec (line : List UInt8) (o : Opts) (last : Nat) (hv : WF line) :
+    ∀ (fuel p0 : Nat), Bd line p0 → line.length - p0 + 1 ≤ fuel →
+    ∃ pce, peek line o last fuel p0 = some pce ∧ p0 ≤ pce ∧ Bd line pce ∧
+      DelimRun o (slice line p0 pce) ∧
+      (o.keep = true → pce - last ≤ max o.width (p0 - last)) ∧
+      (∀ b, Bd line b → p0 ≤ b → NonDelimAt line o b → pce ≤ b) ∧
+      StopReason line o last pce := by
+  intro fuel
+  induction fuel with
+  | zero => intro p0 _ h; omega
+  | succ fuel ih =>
+    intro p0 hb hf
+    rw [peek]
+    have stop : ∀ (hs : StopReason line o last p0),
+        ∃ pce, some p0 = some pce ∧ p0 ≤ pce ∧ Bd line pce ∧
+        DelimRun o (slice line p0 pce) ∧
+        (o.keep = true → pce - last ≤ max o.width (p0 - last)) ∧
+        (∀ b, Bd line b → p0 ≤ b → NonDelimAt line o b → pce ≤ b) ∧
+        StopReason line o last pce := by
+      intro hs
+      refine ⟨p0, rfl, Nat.le_refl _, hb, ?_, ?_, ?_, hs⟩
+      · rw [slice_self]; exact DelimRun_nil o
+      · intro _; exact Nat.le_max_right _ _
+      · intro b _ h _; exact h
+    split
+    · exact stop (Or.inl ‹_›)
+    · rename_i hlt
+      split
+      · rename_i hk
+        simp only [Bool.and_eq_true, decide_eq_true_eq] at hk
+        exact stop (Or.inr (Or.inl hk))
+      · rename_i hk
+        obtain ⟨c, n, hdec, hc, h1, hle, hbn, hsl⟩ := Bd_step hv hb (by omega)
+        rw [hdec]
+        simp only
+        split
+        · rename_i hk2
+          simp only [Bool.and_eq_true, decide_eq_true_eq] at hk2
+          exact stop (Or.inr (Or.inr ⟨c, n, hdec, Or.inl hk2⟩))
+        · rename_i hk2
+          split
+          · rename_i hnd
+            exact stop (Or.inr (Or.inr ⟨c, n, hdec, Or.inr hnd⟩))
+          · rename_i hnd
+            obtain ⟨pce, hp, hle2, hbd, hrun, hkeep, hnp, hsr⟩ := ih (p0 + n) hbn (by omega)
+            refine ⟨pce, hp, by omega, hbd, ?_, ?_, ?_, hsr⟩
+            · rw [slice_append line (Nat.le_add_right p0 n) hle2 hbd.1, hsl]
+              exact DelimRun_cons hc (findDelimiter_mem (Bool.eq_false_iff.mpr hnd)) hrun
+            · intro hkt
+              have := hkeep hkt
+              simp only [hkt, Bool.true_and, decide_eq_true_eq] at hk2
+              have := Nat.le_max_left o.width (p0 - last)
+              rcases Nat.le_total o.width (p0 + n - last) with h | h
+              · rw [Nat.max_eq_right h] at *; omega
+              · rw [Nat.max_eq_left h] at *; omega
+            · intro b hbb hpb hndb
+              rcases Nat.eq_or_lt_of_le hpb with rfl | hlt'
+              · obtain ⟨c', n', hdec', hn'⟩ := hndb
+                rw [hdec] at hdec'
+                simp only [Option.some.injEq, Prod.mk.injEq] at hdec'
+                obtain ⟨rfl, rfl⟩ := hdec'
+                exact absurd hn' hnd
+              · exact hnp b hbb (Bd_nest hb hbb hlt' hdec) hndb
+
 end PV.Lemmas.Fold
